@@ -56,3 +56,37 @@ Definition needs_quote (fully : bool) (s : bytes) : bool := existsb (cq_must_quo
 
 Definition quote (fully : bool) (s : bytes) : bytes :=
   if needs_quote fully s then x22 :: quote_body fully s ++ [x22] else s.
+
+(* ---- the C loop itself, chunk by chunk ------------------------------------------------------
+   A closer transcription of quote_c_style_counted(name, maxlen = len, sb, NULL, 0):
+   [p] is the unread part of the name (maxlen = length p), [at_start] is the C test `p == name`,
+   [sb] the strbuf.  Proofs.v shows it equals [quote]; Run.v's "spec" mode prints this one. *)
+
+(* next_quote_pos(p, maxlen = length p) *)
+Fixpoint next_quote_pos (fully : bool) (p : bytes) : nat :=
+  match p with
+  | [] => O
+  | c :: r => if cq_must_quote fully c then O else S (next_quote_pos fully r)
+  end.
+
+Fixpoint qcs_loop (fuel : nat) (fully : bool) (p : bytes) (at_start : bool) (sb : bytes) : option (bytes * bool) :=
+  match fuel with
+  | O => None
+  | S fuel' =>
+      let len := next_quote_pos fully p in
+      if Nat.eqb len (length p) then Some (sb ++ firstn len p, at_start)   (* break; EMITBUF(p, len) *)
+      else
+        let sb := if at_start then sb ++ [x22] else sb in                 (* if (p == name) EMIT dq *)
+        let sb := sb ++ firstn len p ++ [x5c] in                           (* EMITBUF(p, len); EMIT backslash *)
+        match skipn len p with
+        | ch :: p' => qcs_loop fuel' fully p' false (sb ++ escape_of ch)   (* ch = *p++; maxlen -= len + 1 *)
+        | [] => None                                                       (* not reached: len < maxlen *)
+        end
+  end.
+
+Definition git_quote_c_style (fully : bool) (name : bytes) : option bytes :=
+  match qcs_loop (S (length name)) fully name true [] with
+  | Some (sb, true) => Some sb                    (* p == name: "no ending quote needed", return 0 *)
+  | Some (sb, false) => Some (sb ++ [x22])
+  | None => None
+  end.
